@@ -74,6 +74,8 @@ type Reply struct {
 	// Raw wire bytes (not serialised to traces)
 	Raw []byte `json:"-"`
 	Msg string `json:"-"`
+	// NilRes marks the "-unknown error" reply the connection loop writes when an executor returned a Go nil
+	NilRes bool `json:"nilres,omitempty"`
 }
 
 func B2I(b []byte) []int {
@@ -107,7 +109,7 @@ func FromValue(v respcodec.Value) Reply {
 		if strings.HasPrefix(string(v.Str), "WRONGTYPE") {
 			e = "WRONGTYPE"
 		}
-		return Reply{K: "err", V: []int{}, E: e, Msg: string(v.Str), A: []Reply{}}
+		return Reply{K: "err", V: []int{}, E: e, Msg: string(v.Str), A: []Reply{}, NilRes: string(v.Str) == "unknown error"}
 	case '*':
 		r := Reply{K: "arr", V: []int{}, A: make([]Reply, 0, len(v.Elems))}
 		for _, e := range v.Elems {
@@ -149,7 +151,7 @@ func (s *Srv) ExecConn(argv [][]byte, conn net.Conn) (rep Reply) {
 	res := s.Mgr.ExecCommand(s.Ctx, fresh, conn)
 	if res == nil {
 		// Handle() turns a nil result into "-unknown error"
-		return Reply{K: "err", V: []int{}, A: []Reply{}, E: "OTHER", Msg: "gonil"}
+		return Reply{K: "err", V: []int{}, A: []Reply{}, E: "OTHER", Msg: "gonil", NilRes: true}
 	}
 	return Canon(res.ToBytes())
 }
